@@ -222,7 +222,10 @@ SameKinds(a, b) == IF a.t # b.t THEN a.t = "null" \/ b.t = "null"
 CanonLayoutIndependent == (cur.t = "struct" /\ ~HasCap(cur)) =>
    \A n \in Nbrs(cur) : (n.t = "struct" /\ ~HasCap(n) /\ ValEq(cur, n) = "yes" /\ SameKinds(cur, n)) => Canon(n) = Canon(cur)
 
-EmitEq == Mode = "eq" => \A n \in Nbrs(cur) : PrintT(<<"PAIR", ToJson([a |-> cur, b |-> n, eq |-> ValEq(cur, n)])>>)
+\* da: the canonical layout of a with garbage in every padding bit / byte (a layout a foreign encoder may produce): Equal must not
+\* see padding
+EmitEq == Mode = "eq" => \A n \in Nbrs(cur) : PrintT(<<"PAIR", ToJson([a |-> cur, b |-> n, eq |-> ValEq(cur, n),
+                                                                         da |-> IF HasCap(cur) THEN <<>> ELSE DirtyCanon(cur)])>>)
 EmitCanon == Mode = "canon" => (cur.t = "struct" =>
                \A n \in { x \in Nbrs(cur) : x.t = "struct" } :
                   PrintT(<<"CANON", ToJson([v |-> n, hascap |-> HasCap(n), canon |-> IF HasCap(n) THEN <<>> ELSE Canon(n),
